@@ -98,6 +98,19 @@ def _read_func(fd, typevars):
           "vararg": a.vararg is not None, "kwarg": a.kwarg is not None}
 
 
+def _template(bases, typevars):
+  """Type parameters of a class in template order, when the class lists them
+  in an explicit `Generic[...]` base (PEP 484: that base fixes the order)."""
+  for b in bases:
+    if isinstance(b, ast.Subscript) and _ann(b.value) in ("Generic", "typing.Generic"):
+      sl = b.slice
+      elts = list(sl.elts) if isinstance(sl, ast.Tuple) else [sl]
+      names = [e.id for e in elts if isinstance(e, ast.Name) and e.id in typevars]
+      if len(names) == len(elts):
+        return names
+  return None
+
+
 def _read_body(body, out, typevars):
   seen_funcs = {}
   for st in body:
@@ -109,7 +122,8 @@ def _read_body(body, out, typevars):
       seen_funcs.setdefault(st.name, []).append(f)
     elif isinstance(st, ast.ClassDef):
       c = {"consts": {}, "funcs": {}, "classes": {},
-           "bases": [ast.unparse(b) for b in st.bases]}
+           "bases": [ast.unparse(b) for b in st.bases],
+           "template": _template(st.bases, typevars)}
       _read_body(st.body, c, typevars)
       out["classes"][st.name] = c
     elif isinstance(st, (ast.Import, ast.ImportFrom)):
@@ -144,6 +158,44 @@ class _Subst(ast.NodeTransformer):
     if node.id == self.tv:
       return ast.copy_location(ast.Name(id=self.cls, ctx=ast.Load()), node)
     return node
+
+
+class _SubstMap(ast.NodeTransformer):
+  """TypeVar name -> annotation text."""
+
+  def __init__(self, mapping):
+    self.mapping = mapping
+
+  def visit_Name(self, node):
+    if node.id in self.mapping:
+      return ast.parse(self.mapping[node.id], mode="eval").body
+    return node
+
+
+def _subst_text(text, mapping):
+  return ast.unparse(_SubstMap(mapping).visit(ast.parse(text, mode="eval").body))
+
+
+def _param_receiver(ann, stub_info):
+  """`Cls[a1, ..]` with Cls a class of the stub that has an explicit template
+  of the same arity -> (class name, {type parameter: argument text})."""
+  try:
+    node = ast.parse(ann, mode="eval").body
+  except SyntaxError:
+    return None
+  if not (isinstance(node, ast.Subscript) and isinstance(node.value, ast.Name)):
+    return None
+  cls = stub_info["classes"].get(node.value.id)
+  if not cls or not cls.get("template"):
+    return None
+  sl = node.slice
+  args = list(sl.elts) if isinstance(sl, ast.Tuple) else [sl]
+  if len(args) != len(cls["template"]):
+    return None
+  return node.value.id, {tv: ast.unparse(a) for tv, a in zip(cls["template"], args)}
+
+
+_LITS = [("'s'", "str"), ("1", "int"), ("1.5", "float"), ("b'x'", "bytes")]
 
 
 def _ret_through(f, cls):
@@ -287,6 +339,79 @@ def derive_downstream(stub_info, up="a", rng=None):
                 _ret_through(f, cls))
     for ncls in sorted(c["classes"]):
       probe("n", "%s.%s.%s" % (up, cls, ncls), "type[%s.%s]" % (cls, ncls))
+  # members of generic classes through parameterised receivers: a constant or
+  # a zero-argument function result declared `Cls[args]`; the declared member
+  # type with the class's type parameters replaced by those arguments
+  tvs = stub_info["typevars"]
+  receivers = []
+  for cname, ann in sorted(stub_info["consts"].items()):
+    pr = _param_receiver(ann, stub_info)
+    if pr:
+      receivers.append(("%s.%s" % (up, cname),) + pr)
+  for fname, fs in sorted(stub_info["funcs"].items()):
+    f = _probeable(fs)
+    if f is not None and not fname.startswith("__") and not _call_args(f, False):
+      pr = _param_receiver(f["ret"], stub_info)
+      if pr:
+        receivers.append(("%s.%s()" % (up, fname),) + pr)
+  for expr, cls, mapping in receivers:
+    c = stub_info["classes"][cls]
+    for aname, ann in sorted(c["consts"].items()):
+      if aname.startswith("__"):
+        continue
+      try:
+        used = _names_in(ast.parse(ann, mode="eval").body) & tvs
+      except SyntaxError:
+        continue
+      if used <= set(mapping):
+        probe("g", "%s.%s" % (expr, aname), _subst_text(ann, mapping))
+    for mname, fs in sorted(c["funcs"].items()):
+      if mname.startswith("__") or len(fs) != 1:
+        continue
+      f = fs[0]
+      decos = " ".join(f["decorators"])
+      if f["async"] or f["ret"] is None or "staticmethod" in decos or "classmethod" in decos \
+          or "overload" in decos:
+        continue
+      if not f["params"] or f["params"][0]["ann"] is not None:
+        continue
+      sig_tvs = set()
+      for prm in f["params"][1:]:
+        if prm["ann"]:
+          sig_tvs |= _names_in(ast.parse(prm["ann"], mode="eval").body) & tvs
+      ret_tvs = _names_in(ast.parse(f["ret"], mode="eval").body) & tvs
+      if not (sig_tvs | ret_tvs) <= set(mapping):
+        continue
+      if "property" in decos:
+        probe("g", "%s.%s" % (expr, mname), _subst_text(f["ret"], mapping))
+      elif not f["decorators"] and not _call_args(f, True):
+        # only methods callable without arguments: an Any argument for a
+        # parameter typed with a class type parameter may legitimately widen
+        probe("g", "%s.%s()" % (expr, mname), _subst_text(f["ret"], mapping))
+  # constructors of generic classes called through the stub with literals of
+  # distinct types: the instance is parameterised in TEMPLATE order
+  for cls, c in sorted(stub_info["classes"].items()):
+    tmpl = c.get("template")
+    init = c["funcs"].get("__init__")
+    if not tmpl or not init or len(init) != 1:
+      continue
+    f = init[0]
+    if f["vararg"] or f["kwarg"] or not f["params"]:
+      continue
+    assign, args, ok = {}, [], True
+    for prm in f["params"][1:]:
+      if prm["default"]:
+        continue
+      if prm["kind"] != "pos" or prm["ann"] not in tmpl:
+        ok = False
+        break
+      if prm["ann"] not in assign:
+        assign[prm["ann"]] = _LITS[len(assign) % len(_LITS)]
+      args.append(assign[prm["ann"]][0])
+    if not ok or set(assign) != set(tmpl):
+      continue
+    probe("G", "%s.%s(%s)" % (up, cls, ", ".join(args)),
+          "%s[%s]" % (cls, ", ".join(assign[t][1] for t in tmpl)))
   # from-import forms
   names = sorted(stub_info["consts"])
   if names:
